@@ -64,6 +64,14 @@ def gen_cases(rng, n):
                           # per-band masks: the last band masks pixels the others keep in "last-half"
                           masks=["none", "mixed", "last-half"][(k // 2) % 3],
                           user_range=user_range, big=float(rng.choice([1.0, 1.0, 50.0])), seed=int(rng.integers(0, 2 ** 31))))
+        c = cases[-1]
+        # bands need not share a loss function: where the case's loss has no nuisance sites, every other case gives the odd bands the other one
+        if c["loss"] in ("gaussian_loss", "student_t_loss") and (k // 2) % 2 == 0:
+            other = "student_t_loss" if c["loss"] == "gaussian_loss" else "gaussian_loss"
+            c["losses"] = [c["loss"] if i % 2 == 0 else other for i in range(nb)]
+        # strongly saturated links (|polynomial| ≈ 100): the linked value must still be a number inside its range
+        if k % 6 == 4:
+            c["all50"] = True          # every link coefficient at +50, the edge of the stated domain
     return cases
 
 
@@ -92,7 +100,7 @@ def real_eval(payload):
             user_masks = []
             for ib, b in enumerate(c["bands"]):
                 data, rms, psf = U.make_images(rng, N)
-                loss = getattr(U.L, c["loss"])
+                loss = getattr(U.L, (c.get("losses") or [c["loss"]] * len(c["bands"]))[ib])
                 mstyle = c.get("masks", "none")
                 if mstyle == "mixed":
                     mask = U.make_mask(rng, N, ["none", "random", "half"][ib % 3])
@@ -107,7 +115,9 @@ def real_eval(payload):
                     prior = U.PR.PySersicMultiPrior(cat, sky_type=c["sky"], **kw)
                     f = U.pysersic.FitMulti(data, rms, psf, prior, mask=mask, loss_func=loss, renderer=U.RD.PixelRenderer)
                 else:
-                    prior = U.source_prior("sersic", sky_type=c["sky"], xc=N / 2, yc=N / 2, flux=float(rng.uniform(50, 100)), r_eff=float(rng.uniform(1.5, 2.5)))
+                    # every band comes with its own priors (also for parameters that will be declared constant)
+                    prior = U.source_prior("sersic", sky_type=c["sky"], xc=N / 2 + 0.3 * ib, yc=N / 2 - 0.2 * ib, flux=float(rng.uniform(50, 100)),
+                                           r_eff=float(rng.uniform(1.5, 2.5)), theta=0.3 + 0.2 * ib)
                     f = U.pysersic.FitSingle(data, rms, psf, prior, mask=mask, loss_func=loss, renderer=U.RD.PixelRenderer)
                 fitters.append(f)
                 before.append(dict(f.prior.dist_dict))
@@ -148,6 +158,8 @@ def real_eval(payload):
             for k in list(lat):
                 if k.endswith("_poly_coeff") or k.startswith("bspl_w_"):
                     lat[k] = lat[k] * c["big"] if k.endswith("_poly_coeff") else lat[k]
+                    if c.get("all50") and k.endswith("_poly_coeff"):
+                        lat[k] = jnp.full_like(lat[k], 50.0)
             tr = U.trace_with(model, lat)
             sites = {}
             for name, s in tr.items():
@@ -195,6 +207,12 @@ def real_eval(payload):
                 info["dmat"] = np.asarray(top.dmat_bands, dtype=np.float64).tolist()
             # constant parameters: the object sampled once
             info["const_prior_is_band0"] = all(type(top.const_prior_dict[p]) is type(top.fitter_list[0].prior.dist_dict[p + "_" + c["bands"][0]]) for p in c["const"])
+            def _desc(d):
+                t = d.transforms[0]
+                bd = d.base_dist
+                return [type(bd).__name__, float(t.loc), float(t.scale), str(getattr(bd, "low", None)), str(getattr(bd, "high", None))]
+            info["const_prior_desc"] = {p: _desc(top.const_prior_dict[p]) for p in c["const"]}
+            info["band0_prior_desc"] = {p: _desc(before[0][p]) for p in c["const"] if p in before[0]}
             info["unlinked_prior_own_band"] = True
             info["relabel_direct"] = pre
             out.append(info)
@@ -243,6 +261,11 @@ def judge(ctx, c, r, x64):
                 lines.append(f"dot {len(row)} " + " ".join(f2h(x) for x in row) + " " + " ".join(f2h(x) for x in w))
             link_reqs.append((p, b))
     names_for_range = list(c["linked"])
+    # a constant parameter is sampled once, from the FIRST band's prior (what the class documents and what the joint density is recomputed with)
+    for p, dsc in (r.get("const_prior_desc") or {}).items():
+        b0 = (r.get("band0_prior_desc") or {}).get(p)
+        if b0 is not None and not (dsc[0] == b0[0] and abs(dsc[1] - b0[1]) <= 1e-6 * max(1, abs(b0[1])) and abs(dsc[2] - b0[2]) <= 1e-6 * max(1, abs(b0[2])) and dsc[3:] == b0[3:]):
+            viol.append(v("const-prior", f"constant parameter {p} is given the prior {dsc}, the first band's prior for it is {b0}"))
     for p in names_for_range:
         lines.append(f"mbrange {p}")
     rl_reqs = []
@@ -338,10 +361,11 @@ def judge(ctx, c, r, x64):
             if lname in sites and "pix" in sites[lname]:
                 nuis = dict(frac_rms_increase=0.0, sys_rms_base=0.0, outlier_frac_base=0.0, rms_frac=0.0)
                 det = {}
-                if c["loss"] == "gaussian_loss_w_sys":
+                loss_b = (c.get("losses") or [c["loss"]] * len(c["bands"]))[ib]
+                if loss_b == "gaussian_loss_w_sys":
                     base = float(sites["sys_rms_base_" + b]["value"])
                     det["sys_rms_" + b] = dict(value=base * float(np.mean(pb["rms"][good])))
-                lc = dict(loss=c["loss"], m=exp_img.ravel(), d=pb["data"].ravel(), r=pb["rms"].ravel(), good=good.ravel(), nuis=nuis, suffix="_" + b)
+                lc = dict(loss=loss_b, m=exp_img.ravel(), d=pb["data"].ravel(), r=pb["rms"].ravel(), good=good.ravel(), nuis=nuis, suffix="_" + b)
                 doc = c07.doc_logpdf(lc, det)
                 exp = np.where(good.ravel(), doc, 0.0)
                 got = sites[lname]["pix"].ravel()
